@@ -37,3 +37,15 @@ func VerifPropagate(round, class, method, param string, argT *base.T) bool {
 
 	return propagationForCalledTo(m, class, param, methodT, definedArgT, argT)
 }
+
+// VerifCheckAndPropagateArgs exposes checkAndPropagateArgs in the check round for a receiver of the given class.
+// It answers the error text ("" when the call is accepted).
+func VerifCheckAndPropagateArgs(class string, methodT *base.T, args []*base.T) string {
+	m := &MethodEvaluator{method: methodT.GetMethodName(), ctx: context.NewContext("", "", "check"), evaluatedObjectT: base.MakeObject(class)}
+	m.evaluatedObjectT.SetFrame("Builtin")
+	err := checkAndPropagateArgs(m, class, methodT, args)
+	if err != nil {
+		return err.Error()
+	}
+	return ""
+}
